@@ -14,7 +14,13 @@ CFG = {
                    "GeoProofs/Lemmas/C02XMulti.lean", "GeoProofs/Lemmas/C02XBox.lean", "GeoProofs/Lemmas/C02XConst.lean",
                    "GeoProofs/Lemmas/C02XLinear.lean", "GeoProofs/Lemmas/C02XSegs.lean", "GeoProofs/Lemmas/C02XCommon.lean",
                    "GeoProofs/Lemmas/C02XAcc.lean", "GeoProofs/Lemmas/C02XPoint.lean", "GeoProofs/Lemmas/C02XKernel.lean",
-                   "GeoProofs/Lemmas/C02XThin.lean", "GeoProofs/Lemmas/C02XPairs.lean", "GeoProofs/Lemmas/C02XAreal.lean"],
+                   "GeoProofs/Lemmas/C02XThin.lean", "GeoProofs/Lemmas/C02XPairs.lean", "GeoProofs/Lemmas/C02XAreal.lean",
+                   "GeoProofs/Lemmas/C07XSets.lean", "GeoProofs/Lemmas/C07XValid.lean", "GeoProofs/Lemmas/C07XKern.lean",
+                   "GeoProofs/Lemmas/C07XNest.lean", "GeoProofs/Lemmas/C07XPoly.lean",
+                   "GeoProofs/Lemmas/C02YAreal.lean", "GeoProofs/Lemmas/C02YPairs.lean", "GeoProofs/Lemmas/C02YMask.lean",
+                   "GeoProofs/Lemmas/C02YContains.lean", "GeoProofs/Lemmas/C02YCoords.lean", "GeoProofs/Lemmas/C02YPoint.lean",
+                   "GeoProofs/Lemmas/C02YPointSpec.lean", "GeoProofs/Lemmas/C02YAvoid.lean", "GeoProofs/Lemmas/C02YLinear.lean",
+                   "GeoProofs/Lemmas/C02YRectWind.lean", "GeoProofs/Lemmas/C02YRect.lean"],
     "rule": "2/3 of the cases: ordered pairs (A, B) over all 10 types (both through the Geometry enum) from one shared grid, B drawn independently or "
             "from A's own vertices / edge midpoints / edges (so containment is frequent): intersects(A,B), intersects(B,A), contains(A,B), is_within(A,B); "
             "1/3: coordinate_position(G, p) with p a vertex, an edge midpoint or a half-grid point. Three-way comparison per case: implementation, "
@@ -91,7 +97,23 @@ MANIFEST = {
             "intersectsM_point_geom; Point.intersects(g) = g.intersects(Point) for all inputs), contains(g, Point) = T*****FF* (containsM_geom_point), Point.is_within(g) = T*F**F*** "
             "(withinM_point_geom); the accumulator clauses are additive (calcPos_additive) and members of a domain collection are disjoint point sets (collection_members_apart). "
             "(7) contains: the 66 impl_contains_from_relate! pairs and the 8 MultiPolygon x linear/areal pairs are the mask on the matrix by definition (containsM_via_relate, "
-            "containsM_multiPolygon_via_relate); open: Point x X (9), Line/LineString x Line/LineString (4), MultiPolygon x MultiPoint, Rect x Rect, Rect x Polygon. "
+            "containsM_multiPolygon_via_relate). "
+            "C02Y: (a) the named step of (5) is proved from polyValid: two valid polygons (or to_polygon of a Rect / Triangle) with a common point have a ring point of one in the "
+            "other or a shell point of the other in the first (valid_polygons_boundary_meets, contrapositive of C07X disjoint_of_ext_disjoint: exterior rings without a point in the other "
+            "polygon are disjoint closed curves, outside each other or one inside a hole of the other - nested_rings, exterior_rings, windingE_const), hence Polygon x Polygon intersects <=> "
+            "common point (polyPoly_iff_common) and, repeating the dispatch proof without the thin hypothesis, intersects(a, b) = mask on the specification and intersects symmetric for "
+            "EVERY pair of geometries of the validity domain - all 100 type pairs, MultiPolygon operands, Rect / Triangle through to_polygon, collections with areal members "
+            "(intersectsM_eq_spec, intersectsM_iff_common, intersectsM_symm). (b) The mask T*****FF* on the specification is a point-set statement when the second operand has no areal "
+            "member: some point interior to both and every point of B a point of A (isContains_iff_point_set: every atom located in such a B is a point atom, every point of B has an atom). "
+            "Hence the hand-written Contains bodies equal the mask on the validity domain: Point x X for all nine X, nested collections included (containsM_point_geom; model side by mutual "
+            "recursion: valid linework has two distinct coordinates, every coordinate of a domain geometry is located in it, dims = Empty exactly for the members a collection skips; witness "
+            "that the one-coordinate LineString outside the domain breaks it: pointContains_one_coordinate_witness), MultiPolygon x MultiPoint (containsM_multiPolygon_multiPoint), "
+            "Line x Line (containsM_line_line), Line x LineString (containsM_line_lineString; an interior point off finitely many given points exists on every non-degenerate segment). "
+            "(c) Rect x Rect (containsM_rect_rect; positive width and height, K7 excluded): both operands areal, the face samples m +- delta*n are located exactly - winding number of "
+            "Rect::to_polygon about a point perturbed by the symbolic infinitesimal (rect_windingE) - so a face sample inside the inner Rect is inside the outer one and the sample above the "
+            "inner bottom edge is interior to both. (d) LineString x Line: the specification side for ANY line string (isContains_lineString_line: mask <=> every point of the segment is on the "
+            "line string), so the equality is reduced to that statement about the two-pass truncation loop (containsM_lineString_line_partial). Open (correspondence only): LineString x Line and "
+            "LineString x LineString (loop invariant of cutStep), Rect x Polygon. "
             "Each generated case is compared three ways (implementation = model, implementation = specification). "
             "Translator ties (TRAN): the accumulator model is no longer only hand-written — ringPos_eq_source (coord_pos_relative_to_ring whole: prologue, "
             "winding loop with early return, final test), calculateCoordinatePosition_eq_source (the calculate_coordinate_position bodies of Coord, Point, "
@@ -103,8 +125,9 @@ MANIFEST = {
     "note": "Trusted: Lean kernel + audited axioms; translator; harness (sampling); spec adequacy. Repaired in /repo by this work: Triangle coordinate_position "
             "(29720670), MultiPolygon shared vertex (5f41a6da), MultiPolygon::contains(MultiPoint) (d4024e6e), MultiLineString::contains(Point) (81f1ade9). "
             "Open: K9 coordinate_position(MultiLineString) at an end point shared by an even number of members (an existing unit test pins that behaviour). "
-            "Proved vs sampled (C02X): intersects = mask is PROVED for all inputs of the domain on 76+1 of the 100 ordered type pairs (every pair with a Point / Line / LineString / "
-            "MultiPoint / MultiLineString operand, Rect x Rect; collections when one operand has no areal member) and SAMPLED only on the 15 areal x areal pairs (Polygon x Polygon body; "
-            "its bounding-box shortcut is proved sound); contains = mask is PROVED for X x Point (10), and holds by definition on the 74 pairs that go through relate; SAMPLED only on the 16 "
-            "hand-written pairs listed above; coordinate_position = locate is PROVED for all ten types and collections (K9 excluded).",
+            "Proved vs sampled (C02X + C02Y, table in GeoProofs/Lemmas/C02XTable.lean): intersects = mask is PROVED for all inputs of the validity domain on all 100 ordered type pairs "
+            "(collections with areal members included); contains = mask is PROVED for X x Point (10), Point x X (9), Line x Line, Line x LineString, MultiPolygon x MultiPoint, Rect x Rect "
+            "(non-degenerate; K7 witness for the degenerate case), holds by definition on the 74 pairs that go through relate, and is SAMPLED only on LineString x Line, "
+            "LineString x LineString (specification side proved, the truncation loop not) and Rect x Polygon; coordinate_position = locate is PROVED for all ten types and collections (K9 excluded). "
+            "The areal x areal proof imports the C07X lemmas (nested_rings / exterior_rings) - the same connectedness argument serves C07.",
 }
